@@ -9,7 +9,7 @@ from plugingen import IMPORTS, NODES, pod_key, cwdump, cnodes, conf_trees, conf_
 DEPS = ["Strs", "Nets", "Pool", "NetsP", "PoolP", "Ipam", "IpamP", "Keys", "KeysP", "Plugin", "CorrBase", "Ipamc", "Pluginc",
         "PluginInv", "PluginInvL", "PluginKeyFacts", "PluginIpamFacts", "PluginEnvP", "PluginUnbindP", "PluginBindP", "PluginP",
         "PluginPool", "PluginC10Spec", "PluginC10P", "PluginWitness", "PluginPolicyP", "PluginPoolP", "PluginInfo", "PluginStickyP",
-        "PluginStaleP"]
+        "PluginStaleP", "PluginLiveP"]
 
 RULE_COMMON = ("well-formed histories of plugin sections and environment operations: regression scenarios of the repaired "
                "defects, 'old versus new incarnation' races (kind x policy x requested ranges none/same/changed/multi x provider x "
@@ -179,6 +179,17 @@ def fixed_scenarios():
             put(B4), inf(B4), flt(B4, ["node1"]), bnd(B4), inf(B4), phase(B4, 1), inf(B4),
             {"op": "sync_pod", "ns": "ns1", "name": "web-0", "stale": True}, {"op": "resync", "ip": "10.100.0.3"},
             {"op": "resync", "ip": "10.100.0.5"}, {"op": "sync_pod", "ns": "ns1", "name": "web-0"}]}))
+    # F18: deployment pods with immutable policy; the name of a deleted pod is used again; the new pod is handed the reserved IP
+    # at Filter time; the pod-IP sync arrives with the OLD object; then the resync item of the old IP
+    DA = mkpod("dp-7f9c6d-aaa", "uA", "dp", "dp", 1)
+    DC = mkpod("dp-7f9c6d-bbb", "uC", "dp", "dp", 1)
+    DB = mkpod("dp-7f9c6d-aaa", "uB", "dp", "dp", 1)
+    hs.append(("F18-mixed-uid-key", {"provider": False, "nodes": NODES, "conf": conf_text([POOL_A]), "ops": [
+        {"op": "dp_set", "ns": "ns1", "name": "dp", "replicas": 2}, put(DA), put(DC), inf(DA), inf(DC), flt(DA, ["node1"]), bnd(DA),
+        flt(DC, ["node1"]), bnd(DC), inf(DA), phase(DA, 1), inf(DA), dele(DC), inf(DC), {"op": "event", "n": 0},
+        {"op": "dp_set", "ns": "ns1", "name": "dp", "replicas": 1}, dele(DA), inf(DA), {"op": "event", "n": 0},
+        put(DB), flt(DB, ["node1"]), {"op": "sync_pod", "ns": "ns1", "name": "dp-7f9c6d-aaa", "stale": True},
+        {"op": "resync", "ip": "@a0"}, {"op": "resync", "ip": "@a1"}, inf(DB), bnd(DB, "node1")]}))
     # the same with a resync pass before the informer has caught up (a Bind that went through on the API pod alone would
     # now lose its IP: the lister still shows the old incarnation)
     A3, B3 = mkpod("web-0", "uA"), mkpod("web-0", "uB")
